@@ -243,6 +243,12 @@ def apply_edit(ds: xr.Dataset, built: G.Built, state: dict, e: dict) -> xr.Datas
         out = ds.copy()
         out[e['name']] = xr.Variable(dims, data, attrs=dict(e.get('attrs', {'units': 'kg'})))
         return out
+    if op == 'prepend_var':
+        # a data variable on a new dimension, placed FIRST in the dataset (as `time` is in most files)
+        new = xr.Variable([e['dim']], np.arange(e['n'], dtype='f8') + e.get('base', 0), attrs=dict(e.get('attrs', {'units': '1'})))
+        data_vars = {e['name']: new}
+        data_vars.update({n: v for n, v in ds.variables.items() if n not in ds.coords})
+        return xr.Dataset(data_vars, coords={n: v for n, v in ds.variables.items() if n in ds.coords}, attrs=dict(ds.attrs))
     if op == 'change_var':
         out = ds.copy(deep=True)
         v = out.variables[e['name']]
@@ -379,6 +385,11 @@ def apply_edit(ds: xr.Dataset, built: G.Built, state: dict, e: dict) -> xr.Datas
         else:
             raise ValueError(how)
         new = vals.reshape(nshape)
+        if state['conv'] == 'ugrid' and how == 'reverse' and name in _ugrid_role_names(ds, state).values():
+            # a transposed connectivity table changes which dimension Mesh2DTopology INFERS as the face / edge
+            # dimension when the mesh does not declare it; validity of the optional tables is then C10's
+            # business and unknown to this generator: the oracle still judges the case, the model is not asked
+            state['uncertain'] = True
         for role, rname in _ugrid_role_names(ds, state).items():
             # Mesh2DTopology.has_valid_* compare the SET of dimensions: a transposed table stays valid
             if rname == name and role in state['valid_roles'] and set(ndims) != set(dims):
